@@ -378,6 +378,54 @@ def run(rep: Any, tier: str, seed: int) -> None:
     res = par.run_shards("harness.c04", "_b_shard", [{"n": n, "tier": tier} for n in range(1, NB + 1)])
     for c in par.fold(rep, OB_B, res):
         rep.counterexample(OB_B, c, c["why"])
+    if tier == "thorough":
+        crosshair_leg(rep)
+
+
+OB_X = "C04.slice-arithmetic [second engine: CrossHair contract, n<=4, unbounded limit]"
+
+
+def crosshair_leg(rep: Any) -> None:
+    """Thorough tier: the same obligation through CrossHair 0.0.110 (harness/xh_c04.py)."""
+    import os
+    import re
+    import subprocess
+    import time
+
+    exe = os.path.join(os.path.dirname(sys.executable), "crosshair")
+    if not os.path.exists(exe):
+        rep.mark_inconclusive(OB_X, "crosshair not installed in the overlay venv")
+        return
+    t0 = time.monotonic()
+    try:
+        r = subprocess.run([exe, "check", "--report_all", "--per_condition_timeout", "400", "harness/xh_c04.py"],
+                           capture_output=True, text=True, timeout=1200, cwd=os.path.dirname(os.path.dirname(os.path.abspath(__file__))))
+    except subprocess.TimeoutExpired:
+        rep.mark_inconclusive(OB_X, "CrossHair timed out")
+        return
+    out = r.stdout + r.stderr
+    main_ok = re.search(r"xh_c04.py:\d+: info: Confirmed over all paths", out) is not None
+    twin_violated = "slice_matches__reach" in out and "error: false when calling slice_matches__reach" in out
+    m = re.search(r"error: (?:false|\w+Error[^\n]*) when calling slice_matches\(([^)]*)\)", out)
+    if m:
+        args = [a.strip() for a in m.group(1).split(",")]
+        try:
+            n, c0, c1, c2, outer, inner, has_limit, limit = (int(args[0]), args[1] == "True", args[2] == "True", args[3] == "True",
+                                                             int(args[4]), int(args[5]), args[6] == "True", int(args[7]))
+            case = {"n": n, "cuts": [c0, c1, c2][: n - 1], "where": 0 if outer < 0 else 1, "outer": None if outer < 0 else outer,
+                    "inner": None if inner < 0 else inner, "limit": limit if has_limit else None, "other_len": 0,
+                    "why": "CrossHair counterexample: " + m.group(0)}
+            rep.add_counts(OB_X, 1, 1, time.monotonic() - t0, status="failed")
+            rep.counterexample(OB_X, case, case["why"])
+            return
+        except Exception:
+            pass
+    if main_ok and twin_violated:
+        rep.add_counts(OB_X, 1, 1, time.monotonic() - t0, status="discharged", reached=1)
+        rep.extra["crosshair"] = "Confirmed over all paths; reachability twin violated"
+    else:
+        rep.add_counts(OB_X, 1, 1, time.monotonic() - t0, status="inconclusive")
+        rep.inconclusive.append(f"{OB_X}: {out.strip().splitlines()[-2:]}")
 
 
 def replay(case: Dict[str, Any]) -> Dict[str, Any]:
